@@ -149,3 +149,22 @@ Proof.
     + intros om Hom. apply in_map_iff in Hom. destruct Hom as [[o m] [<- Hin]]. simpl.
       destruct (Ho _ Hin) as [E|E]; simpl in E; subst; auto.
 Qed.
+
+(* interface_oriented_outward, combinatorial level.  [solid i] stands for the sign of the solid angle of the signed union
+   [i] at an interior point; Gauss' law is the hypothesis that reversing every member reverses the sign. *)
+Section Gauss.
+Variable solid : list (Z * nat) -> Z.
+Hypothesis gauss_reversal : forall i, solid (map neg_om i) = - solid i.
+
+Lemma repaired_interface_sign i i' : (solid i = 1 \/ solid i = -1) -> orient_iface (solid i) i = Some i' -> solid i' = -1.
+Proof.
+  intros Hs H. unfold orient_iface in H. destruct Hs as [E|E]; rewrite E in *; simpl in H; injection H as <-.
+  - change (map (fun om : Z * nat => (- fst om, snd om)) i) with (map neg_om i). rewrite gauss_reversal, E. reflexivity.
+  - exact E.
+Qed.
+
+Lemma unclosed_interface_rejected i : solid i <> 1 -> solid i <> -1 -> orient_iface (solid i) i = None.
+Proof.
+  intros H1 H2. unfold orient_iface. destruct (Z.eqb_spec (solid i) 1); [congruence|]. destruct (Z.eqb_spec (solid i) (-1)); [congruence|]. reflexivity.
+Qed.
+End Gauss.
